@@ -117,6 +117,8 @@ class C10(Prop):
             # a de-chunked "Transfer-Encoding: chunked" upload or an HTTP/2 front end: the server hands over a body without Content-Length
             plan["content_length"] = t.weighted([(3, "exact"), (1, "absent"), (1, "chunked")])
             plan["tasks"] = [gen_program(t, 5)]
+        # a body may travel with any method (a GET with a body is unusual, not illegal)
+        plan["method"] = t.choice(["POST", "POST", "POST", "PUT", "GET", "DELETE", "PATCH"])
         return plan
 
     def describe(self, plan, variant=None):
@@ -194,7 +196,7 @@ class C10(Prop):
         harness_cancel = {"on": False}
 
         async def scenario(loop):
-            req_abs = AbstractRequest("POST", "/", headers=[("content-type", plan["ct"])] if plan["ct"] else [], body=body)
+            req_abs = AbstractRequest(plan.get("method", "POST"), "/", headers=[("content-type", plan["ct"])] if plan["ct"] else [], body=body)
             peer = AsgiHttpPeer(loop, ctx, ctx.sched, req_abs, plan["msgs"], recv_lat_extra=(0.0, 0.0, 0.05, 0.2),
                                 complete_disconnects=False)
             req = Request(peer.scope, peer.receive, peer.send)
@@ -452,7 +454,7 @@ class C10(Prop):
             hdrs.append(("transfer-encoding", "chunked"))
         if cl != "exact":
             ctx.probe("wsgi_body_without_content_length")
-        req_abs = AbstractRequest("POST", "/", headers=hdrs, body=body)
+        req_abs = AbstractRequest(plan.get("method", "POST"), "/", headers=hdrs, body=body)
         peer = WsgiPeer(ctx, ctx.sched, req_abs, short_reads=plan["short"])
         req = Request(peer.environ)
         results = []
